@@ -2,7 +2,7 @@
 """prints the prompt for an independent mutant-writing sub-agent: property text only + its own worktree"""
 import json, sys, subprocess, os
 pid = sys.argv[1]; tag = sys.argv[2] if len(sys.argv) > 2 else pid
-round2 = len(sys.argv) > 3 and sys.argv[3] == 'round2'
+round2 = len(sys.argv) > 3 and sys.argv[3] in ("round2", "round3")
 p = [json.loads(l) for l in open('/verif/properties.jsonl') if json.loads(l)['id'] == pid][0]
 wt = '/tmp/mut_%s' % tag
 if not os.path.exists(wt):
@@ -34,6 +34,9 @@ if round2:
         if 'harmless' in name: continue
         try: m = json.load(open(os.path.join(d, 'meta.json')))
         except Exception: m = {}
-        ideas.append('  - %s%s' % (name.replace('ind-', ''), (': needs ' + m['needs']) if m.get('needs') else ''))
-    print("\nThis is a SECOND round. The following ideas were already used by others for this property - your three changes must be genuinely different from all of them (different mechanism, different trigger, if possible a different clause of the property or a different code site):\n" + "\n".join(ideas))
+        br = (m.get('breaks') or '').strip().lstrip('#* ').strip()[:200]
+        nd = m.get('needs') or ''
+        if nd.startswith(('see README', 'nothing beyond')): nd = ''
+        ideas.append('  - %s%s%s' % (name.replace('ind-', ''), (': ' + br) if br else '', (' — needs ' + nd) if nd else ''))
+    print("\nThis is a LATER round (several rounds were done already). The following ideas were already used by others for this property - your three changes must be genuinely different from all of them (different mechanism, different trigger, if possible a different clause of the property or a different code site):\n" + "\n".join(ideas))
     print("\nPrefer changes of these kinds, which are under-represented so far: two cooperating code sites that each look fine alone; state that leaks between calls, objects, threads or process runs; behaviour that only differs for a boundary value of a configuration parameter (0, 1, negative, INT_MAX) or an unusual-but-legal API usage (same object used twice, call order reversed, empty/NULL argument); a platform/library assumption (locale, time zone, file system timestamp granularity, QString null vs empty).")
